@@ -81,6 +81,18 @@ def outOf (j : Json) : R (List (Delta Float) × List (List Nat × Nat)) := do
     pure (← strOf (← arrAt a 0), ← natAt a 1))
   pure (ap, rj)
 
+/-- `monL2` is invariant under a common positive factor (`C03_monL2_scale_invariant`).  At `Float` the squares
+of magnitudes below ~1e-154 underflow, so for tiny caps the predicate is evaluated on the cap and the deltas
+multiplied by `2^600` — an exact operation (a delta that is far above a tiny cap overflows to `inf` and fails,
+as it should).  Same tolerance as the exact-rational Python monitor `l2.exact`. -/
+def monL2F (cap : Float) (ap : List (Delta Float)) : Bool :=
+  if cap < Float.scaleB 1.0 (-400) then
+    -- one denormal unit (2^-1074) per delta of absolute slack: a product that lands in the denormal range is
+    -- quantised to whole units (the predicate is monotone in the cap, so this only weakens it by rounding noise)
+    let capEff := cap + ap.length.toFloat * Float.scaleB 1.0 (-1074)
+    monL2 l2Slack (capEff * Float.scaleB 1.0 600) (ap.map (scaleBy (Float.scaleB 1.0 600)))
+  else monL2 l2Slack cap ap
+
 def handleMon (j : Json) : R Json := do
   let inp ← inputOf j
   let (ap, rj) ← outOf j
@@ -89,7 +101,7 @@ def handleMon (j : Json) : R Json := do
   | "unique" => pure (jBool (monUnique ap))
   | "sorted" => pure (jBool (monSorted ap))
   | "novelty" => pure (jBool (monNovelty inp.capNov ap))
-  | "l2" => pure (jBool (monL2 l2Slack inp.capL2 ap))
+  | "l2" => pure (jBool (monL2F inp.capL2 ap))
   | "churn" => pure (jBool (monChurn inp.k ap))
   | "cooldown" => pure (jBool (monCooldown inp ap))
   | "subset" => pure (jBool (monSubset inp ap))
@@ -108,7 +120,7 @@ def handleMonAll (j : Json) : R Json := do
   let res : List (String × Bool) :=
     [("unique", monUnique ap), ("sorted", monSorted ap),
      ("novelty", !capsOk || monNovelty inp.capNov ap),
-     ("l2", !capsOk || monL2 l2Slack inp.capL2 ap),
+     ("l2", !capsOk || monL2F inp.capL2 ap),
      ("churn", !kOk || monChurn inp.k ap),
      ("cooldown", monCooldown inp ap), ("subset", monSubset inp ap),
      ("rejected", monRejected inp rj),
